@@ -79,7 +79,7 @@ Vals(lo, hi, p) == [k \in p |-> Project(lo, hi, k)]
 
 \* edges on multiples of 50 grid units: 10, 20, 30 user units on the grid of fifths - values
 \* that are written with trailing zeros before those are trimmed
-BigBoxes == {B(50, 100, 82, 150), B(-100, 50, -50, 82)}
+BigBoxes == {B(50, 100, 82, 150), B(-100, 50, -50, 82), B(100, 200, 162, 300), B(100, 200, 226, 262)}
 SolveBoxes ==
     IF Tier = "quick"
     THEN {B(x, y, x + w, y + h) : x \in {-12, 8}, y \in {-4, 6}, w \in {8, 20}, h \in {8, 12}} \cup BigBoxes
